@@ -682,4 +682,32 @@ def check_builders_keep_cli(F, R, inst="builder-keeps-cli"):
             break
         n += 1
         R.check(bad is None, f"{inst}/{nm}", b, "cli carried over", f"Cucumber::{nm}: {bad}")
+        if nm in ("with_cli", "with_default_cli") and bad is None:
+            # the two methods that SET the options: whatever was stored before, afterwards it is Some(the parameter) / Some(the defaults)
+            why = None
+            for p in rows:
+                r = strip(p.ret)
+                if r == SELF:
+                    v = ("field", SELF, ci)
+                elif r[0] == "with":
+                    v = dict(r[2]).get(ci, ("field", SELF, ci))
+                else:
+                    v = r[3][ci]
+                v = strip(v)
+                conds = " ∧ ".join(f"{D.fmt(b, a)[:40]}={o}" for a, o in p.conds) or "always"
+                # in-place updates through `&mut self.cli` that the table does not model
+                muts = [e for e in p.effects if e[0] == "call" and e[2] and strip(e[2][0]) == ("field", SELF, ci) and e[2][0] != strip(e[2][0])]
+                if muts and v == ("field", SELF, ci):
+                    e = muts[-1]
+                    if re.search(r"Option::<.*>::(insert|replace)$", e[1]) and len(e[2]) == 2:
+                        v = ("variant", "std::option::Option", "Some", (e[2][1],))
+                    elif not re.search(r"Option::<.*>::(get_or_insert|get_or_insert_with|as_ref|as_mut|is_some|is_none)$", e[1]):
+                        raise Unverifiable(f"Cucumber::{nm}: the options are updated in place through {e[1][-40:]}")
+                if not D.is_variant(v, "std::option::Option", "Some") or D.mentions(v, lambda y: y == SELF):
+                    why = f"[{conds}] the options stored are {D.fmt(b, v)[:50]}: what an earlier with_cli() stored survives"
+                elif nm == "with_cli" and strip(v[3][0]) != ("arg", 2):
+                    why = f"[{conds}] the options stored are {D.fmt(b, v)[:50]}, not the parameter"
+                elif nm == "with_default_cli" and not (strip(v[3][0])[0] == "call" and re.search(r"Default>?::default$", strip(v[3][0])[1]) and not strip(v[3][0])[2]):
+                    why = f"[{conds}] the options stored are {D.fmt(b, v)[:50]}, not `Default::default()`"
+            R.check(why is None, f"{inst}/{nm}/sets", b, "the options are replaced unconditionally", f"Cucumber::{nm}: {why}")
     return n
